@@ -1,6 +1,6 @@
 //! C17 task oracle: real router (fixture::App), pipes mode.
 
-use super::emit::{bucket, gen_plan, lossy, read_progress, Plan};
+use super::emit::{bucket, gen_plan, lossy, read_journal, read_progress, tails_shape, wait_all_over, Journals, Plan, Tail, TailTruth, J_EXIT, J_SPAWNED};
 use super::pages::{judge_random, judge_walk, page_sizes, Page};
 use crate::fixture::{App, Store};
 use crate::prng::Rng;
@@ -30,6 +30,10 @@ pub enum Cancel {
     None,
     AfterMs(u64),
     AtRecord(u64),
+    /// this long after the child has started all its descendants (child still alive when it lingers)
+    AfterTailsSpawned(u64),
+    /// this long after the direct child has exited (only descendants are alive)
+    AfterChildExit(u64),
 }
 
 #[derive(Clone, Debug, PartialEq)]
@@ -56,7 +60,12 @@ pub struct TaskCase {
     /// starve the blocking pool (1 thread kept busy) while the task runs
     pub starve: bool,
     pub force_page: Option<usize>,
+    /// descendants of the child that keep the pipes open after it (pipe lifetime ≠ process lifetime)
+    pub tails: Vec<Tail>,
 }
+
+/// Clock slack when a journal time stamp (descendant) is compared with a frame time stamp (ripd).
+const STAMP_SLACK_MS: u64 = 20;
 
 impl TaskCase {
     pub fn limit(&self) -> usize {
@@ -74,6 +83,8 @@ impl TaskCase {
             "stderr_len": self.plan.err.len(), "writes": self.plan.ops.len(), "exit": self.plan.exit,
             "shape": self.plan.shape, "starve_blocking_pool": self.starve,
             "stdout_head_hex": hex::encode(&self.plan.out[..self.plan.out.len().min(24)]),
+            "linger_ms": self.plan.linger_ms,
+            "descendants": self.tails.iter().map(|t| t.describe()).collect::<Vec<_>>(),
         })
     }
 }
@@ -114,6 +125,23 @@ pub fn gen_case(cfg: &Cfg, rng: &mut Rng, idx: u64) -> TaskCase {
         3 => Attach::AfterMs(rng.below(12)),
         _ => Attach::AfterTerminal,
     };
+    // pipe lifetime ≠ process lifetime (own rng lane: the rest of the case stays what it was)
+    let mut trng = Rng::derive(rng.clone().next_u64(), 0x7A11);
+    let mut cancel = cancel;
+    let mut tails = Vec::new();
+    if class == Class::Normal && trng.chance(1, 90) {
+        tails = super::emit::gen_tails(&mut trng);
+        if cancel != Cancel::None {
+            cancel = match trng.below(3) {
+                0 => cancel,
+                1 => {
+                    plan.linger_ms = 400;
+                    Cancel::AfterTailsSpawned(trng.below(120))
+                }
+                _ => Cancel::AfterChildExit(trng.below(120)),
+            };
+        }
+    }
     TaskCase {
         idx,
         label: "random".into(),
@@ -130,6 +158,7 @@ pub fn gen_case(cfg: &Cfg, rng: &mut Rng, idx: u64) -> TaskCase {
         page_seed: rng.next_u64(),
         starve: false,
         force_page: None,
+        tails,
     }
 }
 
@@ -168,7 +197,14 @@ pub async fn run_case(r: &mut Report, s: &Arc<Sched>, case: &TaskCase, store: &S
     if case.cwd {
         let _ = std::fs::create_dir_all(store.ws.join("sub dir"));
     }
-    let (command, progress) = case.plan.command(&store.dir, &format!("task{}", case.idx), true);
+    let has_tails = !case.tails.is_empty();
+    let (command, progress, journals): (String, Option<PathBuf>, Option<Journals>) = if has_tails {
+        let (c, p, j) = case.plan.command_with_tails(&store.dir, &format!("task{}", case.idx), true, &case.tails);
+        (c, p, Some(j))
+    } else {
+        let (c, p) = case.plan.command(&store.dir, &format!("task{}", case.idx), true);
+        (c, p, None)
+    };
     let mut args = json!({"command": command});
     if let Some(l) = case.limit_arg {
         args["max_bytes"] = json!(l);
@@ -300,6 +336,7 @@ pub async fn run_case(r: &mut Report, s: &Arc<Sched>, case: &TaskCase, store: &S
         let id = id.clone();
         let cancel = case.cancel.clone();
         let sent = cancel_sent.clone();
+        let cancel_journals = journals.clone();
         tokio::spawn(async move {
             match cancel {
                 Cancel::None => {}
@@ -311,6 +348,31 @@ pub async fn run_case(r: &mut Report, s: &Arc<Sched>, case: &TaskCase, store: &S
                     sent.store(st == 202, Ordering::SeqCst);
                 }
                 Cancel::AtRecord(_) => {}
+                Cancel::AfterTailsSpawned(ms) | Cancel::AfterChildExit(ms) => {
+                    // wait for the moment in the child's own journal (never longer than the watchdog)
+                    let want_exit = matches!(cancel, Cancel::AfterChildExit(_));
+                    let t = Instant::now();
+                    let mut reached = false;
+                    while t.elapsed() < Duration::from_secs(15) {
+                        if let Some(j) = &cancel_journals {
+                            let cj = read_journal(&j.child);
+                            reached = if want_exit {
+                                cj.iter().any(|r| r.kind == J_EXIT)
+                            } else {
+                                cj.iter().filter(|r| r.kind == J_SPAWNED).count() >= j.tails.len()
+                            };
+                        }
+                        if reached {
+                            break;
+                        }
+                        tokio::time::sleep(Duration::from_millis(3)).await;
+                    }
+                    if reached {
+                        tokio::time::sleep(Duration::from_millis(ms)).await;
+                        let (st, _) = app.json("POST", &format!("/tasks/{id}/cancel"), Some(&json!({"reason": "rv"}))).await;
+                        sent.store(st == 202, Ordering::SeqCst);
+                    }
+                }
             }
         })
     };
@@ -422,6 +484,20 @@ pub async fn run_case(r: &mut Report, s: &Arc<Sched>, case: &TaskCase, store: &S
         m
     };
     let files_early = read_logs(&st0);
+    // Pipe lifetime ≠ process lifetime: judge the state that is left once the last descendant that held
+    // a pipe is gone (whatever a detached reader would still do has been done by then).
+    let mut tails_note: Option<super::emit::Lives> = None;
+    if let Some(j) = &journals {
+        let longest = case.tails.iter().map(|t| t.life_ms()).max().unwrap_or(0) + case.plan.linger_ms;
+        let l = wait_all_over(j, Duration::from_millis(longest + 4000)).await;
+        if !l.all_over {
+            finish(s);
+            r.inconclusive(&format!("case {}: descendants still alive {} ms after the terminal frame", case.idx, longest + 4000));
+            return None;
+        }
+        tokio::time::sleep(Duration::from_millis(250)).await;
+        tails_note = Some(l);
+    }
     // end of run_task (snapshot written) = nothing more can be emitted
     let t1 = Instant::now();
     while !hook.snapshot_written.load(Ordering::SeqCst) && t1.elapsed() < Duration::from_secs(5) {
@@ -548,6 +624,8 @@ pub async fn run_case(r: &mut Report, s: &Arc<Sched>, case: &TaskCase, store: &S
             Cancel::None => "nocancel".to_string(),
             Cancel::AfterMs(_) => "cancel-delay".to_string(),
             Cancel::AtRecord(k) => format!("cancel@{}", k.min(3)),
+            Cancel::AfterTailsSpawned(_) => "cancel-child+desc".to_string(),
+            Cancel::AfterChildExit(_) => "cancel-desc-only".to_string(),
         },
         match case.attach {
             Attach::Immediately => 0,
@@ -602,13 +680,32 @@ pub async fn run_case(r: &mut Report, s: &Arc<Sched>, case: &TaskCase, store: &S
         r.count("cancel_accepted_but_task_exited_normally", 1);
     }
     let prog = progress.as_deref().and_then(read_progress);
+    // ground truth with descendants: child's bytes, then the writing descendant's, per stream
+    let tt = TailTruth::build(&case.plan, &case.tails, journals.as_ref());
+    let t_term = term["timestamp_ms"].as_u64().unwrap_or(0);
+    if has_tails {
+        shape.push_str(&format!("|{}|{}", tails_shape(&case.tails), if case.plan.linger_ms > 0 { "childlingers" } else { "childgone" }));
+        r.count("descendant_cases_judged_task", 1);
+        if let Some(l) = &tails_note {
+            r.count("descendants_started", l.tails_spawned as u64);
+            r.count("descendants_killed_before_their_exit", l.tails_killed as u64);
+        }
+        // did the terminal frame come before or after the last descendant let go of the pipe?
+        let last_exit = journals
+            .as_ref()
+            .map(|j| j.tails.iter().filter_map(|p| read_journal(p).iter().find(|r| r.kind == J_EXIT).map(|r| r.t_ms)).max().unwrap_or(0))
+            .unwrap_or(0);
+        if last_exit > 0 && t_term > 0 {
+            r.count(if t_term + 20 >= last_exit { "terminal_status_after_last_descendant_exit" } else { "terminal_status_before_last_descendant_exit" }, 1);
+        }
+    }
 
     // ---- stored bytes, counters, ranges, previews
     let limit_eff = case.limit().min(READ_SIZE);
     let cap = case.cap();
     let mut any_gap = false;
     for (k, sname) in ["stdout", "stderr"].iter().enumerate() {
-        let truth_b = case.plan.stream(sname);
+        let truth_b: &[u8] = &tt.full[k];
         let sum = &term["artifacts"]["logs"][*sname];
         let file = files.remove(*sname).unwrap_or_default();
         let early = files_early.get(*sname).cloned().unwrap_or_default();
@@ -616,7 +713,8 @@ pub async fn run_case(r: &mut Report, s: &Arc<Sched>, case: &TaskCase, store: &S
         let total = sum["bytes_total"].as_u64().unwrap_or(u64::MAX);
         let stored = sum["bytes_stored"].as_u64().unwrap_or(u64::MAX);
         let want_stored_len = (truth_b.len().min(cap)) as u64;
-        if !sum["error"].is_null() {
+        // (with descendants a summary that does not describe the stored log is reported as such, below)
+        if !sum["error"].is_null() && !(has_tails && stored != file.len() as u64) {
             r.violation("C17/task/log_summary_error", &format!("{sname} summary carries an error: {}", sum["error"]), w(json!(null)));
             return None;
         }
@@ -630,7 +728,43 @@ pub async fn run_case(r: &mut Report, s: &Arc<Sched>, case: &TaskCase, store: &S
             );
             return None;
         }
-        if !cancelled {
+        if has_tails {
+            // The terminal frame must describe the stored log for good: `file` was read after the last
+            // process that held the pipe was gone, `early` when the terminal frame arrived.
+            if stored != file.len() as u64 {
+                r.violation(
+                    "C17/task/terminal_summary_differs_from_stored_log",
+                    &format!(
+                        "{sname}: the terminal status frame says bytes_stored {stored}; the log held {} bytes when that frame arrived and holds {} bytes after the last descendant that kept the pipe open had exited (a descendant outlived the shell on the task's pipe)",
+                        early.len(), file.len()
+                    ),
+                    w(json!({"len_when_terminal_received": early.len(), "len_after_descendants_exited": file.len(),
+                             "log_grew_after_terminal_status": file.len() > early.len()})),
+                );
+                return None;
+            }
+            let (lo, hi) = if t_term > 0 { tt.bounds(k, t_term, STAMP_SLACK_MS) } else { (0, truth_b.len() as u64) };
+            if total < lo {
+                r.violation(
+                    "C17/task/output_written_before_terminal_status_not_counted",
+                    &format!(
+                        "{sname}: child and descendants had written {lo} bytes at least {STAMP_SLACK_MS} ms before the terminal status frame was made, the frame counts {total}"
+                    ),
+                    w(json!({"written_before_terminal_at_least": lo, "written_at_most": hi, "truth_len": truth_b.len()})),
+                );
+                return None;
+            }
+            if total > hi || stored != total.min(cap as u64) || sum["truncated"] != json!(total > cap as u64) {
+                r.violation(
+                    "C17/task/summary_counters_differ_from_truth",
+                    &format!("{sname}: between {lo} and {hi} bytes were written up to the terminal frame (cap {cap}) but the summary says total {total}, stored {stored}, truncated {}", sum["truncated"]),
+                    w(json!({"written_before_terminal_at_least": lo, "written_at_most": hi})),
+                );
+                return None;
+            }
+            r.count(if total == truth_b.len() as u64 { "descendant_streams_stored_whole" } else { "descendant_streams_stored_up_to_terminal" }, 1);
+            r.count("descendant_bytes_compared", (file.len().saturating_sub(case.plan.stream(sname).len().min(cap))) as u64);
+        } else if !cancelled {
             if file.len() as u64 != want_stored_len {
                 r.violation(
                     "C17/task/stored_bytes_incomplete",
